@@ -6,6 +6,7 @@ CONSTANTS
   Senses = {"minimize"}
   SchedObjs <- MC_Objs
   Methods = {}
+  OptSets <- MC_OptSets
   FaultExcs <- MC_Excs
   OnlySuccess = FALSE
   EditInvalidates = TRUE
